@@ -125,7 +125,42 @@ fn gen_op(ag: &Ag, rng: &mut Rng) -> Option<Op> {
     .filter(|n| n.is_named_leaf() && n.is_named() && !n.range().is_empty() && n.range().len() < 40)
     .take(4000)
     .collect();
-  match rng.below(10) {
+  match rng.below(13) {
+    10 | 11 | 12 => {
+      // blank-only edits where layout matters: a line's indentation grows or shrinks, a line break becomes
+      // spaces or spaces become a line break, a run of blanks is replaced by another run
+      let b = src.as_bytes();
+      let runs: Vec<(usize, usize)> = {
+        let mut v = vec![];
+        let mut i = 0;
+        while i < b.len() {
+          if b[i] == b' ' || b[i] == b'\n' || b[i] == b'\t' {
+            let st = i;
+            while i < b.len() && (b[i] == b' ' || b[i] == b'\n' || b[i] == b'\t') {
+              i += 1;
+            }
+            v.push((st, i));
+          } else {
+            i += 1;
+          }
+        }
+        v
+      };
+      if runs.is_empty() {
+        return None;
+      }
+      let (st, en) = *rng.pick(&runs);
+      let run = &src[st..en];
+      match rng.below(5) {
+        // indent the line that follows a line break further / dedent it
+        0 if run.contains('\n') => Some(Op::Edit { pos: en, del: 0, ins: "    ".to_string() }),
+        1 if run.ends_with("  ") => Some(Op::Edit { pos: en - 2, del: 2, ins: String::new() }),
+        // a line break becomes blanks, blanks become a line break
+        2 if run.contains('\n') => Some(Op::Edit { pos: st, del: en - st, ins: "   ".to_string() }),
+        3 => Some(Op::Edit { pos: st, del: en - st, ins: "\n".to_string() }),
+        _ => Some(Op::Edit { pos: st, del: en - st, ins: format!("{run} ") }),
+      }
+    }
     0 | 1 | 2 if !leaves.is_empty() => {
       // replace a named leaf by another token (shorter / longer / multi-byte) or another leaf's text
       let l = rng.pick(&leaves);
